@@ -199,6 +199,10 @@ class SGraph:
         """
         dependencies = as_tuple(dependencies)
         for dependency in item.create_dependency_items(item_factory=item_factory, config=config):
+            if dependency == item:
+                # A recursive procedure is not its own child: no self edge, and its ignore list
+                # applies to its dependencies, not to itself
+                continue
             if not (dependency in dependencies or SchedulerConfig.match_item_keys(dependency.name, item.block)):
                 dependency.config['is_ignored'] = (
                     item.is_ignored or
